@@ -187,10 +187,14 @@ def run(ck, a):
         erp = F(repr(float(sys0.baumgarte_erp)))
         if pname == 'spring':
           lo_, hi_ = -e * v - F(1, 10**6), -e * v + erp * d / dt + F(1, 10**6)
+          ck.add(Ob('restitution/%s: post-impact normal speed in [e|v|, e|v| + erp*d/dt]' % tag, side + [v <= -F(1, 10)],
+                    z3.And(fr.formula(lift(vz2) >= lo_), fr.formula(lift(vz2) <= hi_)), timeout=300, core=True, meta=meta))
         else:
-          lo_, hi_ = -e * v - F(1, 1000) * (1 - v), -e * v + F(1, 1000) * (1 - v)
-        ck.add(Ob('restitution/%s: post-impact normal speed == e*|v| within the pipeline margin' % tag, side + [v <= -F(1, 10)],
-                  z3.And(fr.formula(lift(vz2) >= lo_), fr.formula(lift(vz2) <= hi_)), timeout=120, core=True, meta=meta))
+          # positional: e at exact rational sample values (keeps each query to the two variables d, v), margin 1e-3 (1 + |v|)
+          for ev in (F(0), F(1, 2), F(9, 10)):
+            lo_, hi_ = -ev * v - F(1, 1000) * (1 - v), -ev * v + F(1, 1000) * (1 - v)
+            ck.add(Ob('restitution/%s/e=%s: post-impact normal speed == e*|v| within 1e-3(1+|v|)' % (tag, ev), side + [v <= -F(1, 10), e == ev],
+                      z3.And(fr.formula(lift(vz2) >= lo_), fr.formula(lift(vz2) <= hi_)), timeout=300, core=True, meta=meta))
       if not grav:
         ck.add(Ob('twin/reach/' + tag, side, None, expect='sat', timeout=60, core=is_core))
         ck.add(Ob('twin/pull-in-possible/' + tag, side + [fr.formula(lift(vz2) <= F(1, 100))], None, expect='sat', timeout=60, core=is_core))
